@@ -17,7 +17,10 @@ run_demo > $OUT/confirm$K.patched.log 2>&1; PATCHED=$?
 if [ -z "$SKIP_TESTS" ]; then
 (cd $WT && /venv/bin/python -m pytest -q -p no:cacheprovider --timeout=900 --continue-on-collection-errors 2>&1 | grep -v conda | tail -8) > $OUT/confirm$K.tests.log 2>&1
 TESTS=$(grep -E "passed|failed" $OUT/confirm$K.tests.log | tail -1)
-else TESTS="skipped"; fi
+else
+  # re-check only: keep the recorded result of the pinned suite from the earlier full confirmation
+  TESTS=$(python3 -c "import json,sys; print(json.load(open('$OUT/confirm$K.json'))['tests'])" 2>/dev/null || echo "skipped")
+fi
 RES=""
 for C in $CHECKS; do
   VERIF_REPLAY_DIR=$OUT/replays VERIF_EVIDENCE_DIR=$OUT/evidence EMBOSS_REPO=$WT VERIF_SEED=${VERIF_SEED:-1} /verif/check $C --tier quick > $OUT/confirm$K.check_$C.log 2>&1; RC=$?
